@@ -768,7 +768,9 @@ func (le *layEval) evalCall(fr *frame, call *ssa.Call, events *[]layEv) {
 		}
 		if br != nil {
 			ev.Off, ev.Buf = br.off.String(), br.root
-			if br.ln != nil && br.ln.String() != widthBytes(bits) {
+			// PutUintN / UintN touch exactly the first N/8 bytes of the slice they are given; a
+			// longer slice (an open-ended `b[off:]`) is fine, a provably shorter one panics
+			if br.ln != nil && br.ln.isConst() && fmt.Sprint(br.ln.k) != widthBytes(bits) && br.ln.k < widthInt(bits) {
 				ev.Width += "(slice " + br.ln.String() + " bytes!)"
 			}
 		} else {
@@ -781,7 +783,9 @@ func (le *layEval) evalCall(fr *frame, call *ssa.Call, events *[]layEv) {
 		ev := layEv{Op: "get", Order: orderOf(c.Args[0]), Width: "u" + bits, Field: destOf(call, 0)}
 		if br != nil {
 			ev.Off, ev.Buf = br.off.String(), br.root
-			if br.ln != nil && br.ln.String() != widthBytes(bits) {
+			// PutUintN / UintN touch exactly the first N/8 bytes of the slice they are given; a
+			// longer slice (an open-ended `b[off:]`) is fine, a provably shorter one panics
+			if br.ln != nil && br.ln.isConst() && fmt.Sprint(br.ln.k) != widthBytes(bits) && br.ln.k < widthInt(bits) {
 				ev.Width += "(slice " + br.ln.String() + " bytes!)"
 			}
 		} else {
